@@ -3,13 +3,18 @@ EXTENDS Solve
 O(i, d, n) == [id |-> i, deg |-> d, nc |-> n]
 Cn(i, d, e) == [id |-> i, deg |-> d, eq |-> e, nc |-> FALSE]
 MC_ObjRecs == {O(1, 1, FALSE), O(2, 1, FALSE), O(3, 2, FALSE), O(4, 9, FALSE), O(5, 1, TRUE)}
-MC_ConRecs == {Cn(11, 1, FALSE), Cn(12, 9, TRUE)}
+MC_ConRecs == {Cn(11, 1, FALSE), Cn(12, 9, TRUE), Cn(13, 1, FALSE)}      \* 13 introduces a variable the objective does not mention
 MC_Excs == Excs
 MC_NoExcs == {}
+MC_OptSets == {DefaultOpts}
+\* a small instance over every combination of solve options (MC_SolveOpts.cfg)
+MC_OptSetsAll == [useHess : BOOLEAN, x0 : BOOLEAN, tol : BOOLEAN, maxiter : BOOLEAN]
 MC_MethodsH == {"auto", "linprog", "SLSQP", "trust-constr"}
 MC_MethodsAll == {"auto", "linprog", "highs", "highs-ds", "highs-ipm", "SLSQP", "trust-constr", "L-BFGS-B", "TNC", "COBYLA",
                   "Nelder-Mead", "Powell", "BFGS", "CG", "Newton-CG"}
 MC_ObjRecsP == {O(3, 2, FALSE), O(1, 1, FALSE), O(5, 1, TRUE)}
+\* the fixpoint check keeps two records: 13 is abstractly a copy of 11 (it matters only to the concrete replay, MC_Hist)
+MC_ConRecs2 == {Cn(11, 1, FALSE), Cn(12, 9, TRUE)}
 MC_ConRecsP == {Cn(11, 1, FALSE)}
 MC_Methods == {"auto", "linprog", "SLSQP", "trust-constr", "L-BFGS-B"}
 \* observation variables do not distinguish states of the design
